@@ -25,6 +25,7 @@ Hashing to the curve is compared on every run with the RFC 9380 construction of 
 import RelicVerif.Lemmas.EdFormulas
 import RelicVerif.Lemmas.EdGroup
 import RelicVerif.Lemmas.EdMul
+import RelicVerif.Lemmas.EdLot
 import RelicVerif.Lemmas.EdConv
 import Mathlib.Algebra.Field.ZMod
 
@@ -211,10 +212,26 @@ theorem mul_sim (isO : G → Bool) (hO : IsOSound isO) (par : Par) (hok : par.Ok
     simInter_correct isO hO par hok hw mul p k q m hp hq hmp hmq, simJoint_correct isO hO par hok mul p k q m hp hq hmp hmq,
     simPlainGen_correct par hok hw hd p k q m hp hq⟩
 
+/-- ed_mul_pre_combd + ed_mul_fix_combd (double-table comb; Model/EdMul.lean `mulFixCombd` = the shared models `tabCombd`,
+    `mulCombd` of Model/EpMul.lean with the constants dd = ⌈bits(r)/depth⌉, e = ⌈dd/2⌉ of the C code): total, [k]P for every
+    integer k, every depth ≥ 1 — corollary of C03.mul_fix_combd_correct -/
+theorem mul_fix_combd (par : Par) (hok : par.Ok) (hd : 1 ≤ par.depth) (p : G) (hp : (par.ord : ℤ) • p = 0) (k : ℤ) :
+    mulFixCombd gops par p k = some (k • p) :=
+  mulFixCombd_correct par hok hd p hp k
+
+/-- ed_mul_sim_lot: total and Σ kᵢ • Pᵢ for EVERY list of (point, scalar) pairs: any number of points (also none), scalars of
+    any sign and length (the routine does not reduce them, hence no hypothesis on the points) — corollary of
+    C03.mul_sim_lot_plain_correct plus the totality of the recoding at capacity max bits + 1 -/
+theorem mul_sim_lot (pks : List (G × ℤ)) :
+    simLot gops pks = some ((pks.map fun pk => pk.2 • pk.1).sum) :=
+  simLot_correct pks
+
 /-- the hypotheses are satisfiable (ℤ/7ℤ is killed by 7 < 2^255) and the routines compute (−153 mod 7 = 1) -/
 example : (⟨255, 4, 5, 7⟩ : Par).Ok ∧ ((7 : ℕ) : ℤ) • (1 : ZMod 7) = 0 :=
   ⟨⟨by decide, by norm_num⟩, by decide⟩
 example : mulLwnaf (gops : Ops ℤ) (fun x => x == 0) ⟨255, 4, 5, 7⟩ 1 (-153) = some 1 := by decide
+example : mulFixCombd (gops : Ops ℤ) ⟨255, 4, 2, 7⟩ 1 (-153) = some 1 := by decide
+example : simLot (gops : Ops ℤ) [(1, -153), (10, 7), (100, 0)] = some (-83) := by decide
 
 end Mul
 
